@@ -118,6 +118,26 @@ class C18(Prop):
                   "round trips and ~10^5 strings through the real parsers vs the model (gendrv).")
 
 
+class C19(Prop):
+    id = "C19"
+    lean_module = "Props.C19"
+    harness = "dpt"
+    streams = [("C19", "gendrv", 1.0)]
+    budgets = {"quick": 30000, "thorough": 1000000}
+    thorough_seeds = 2
+    rule = ("all registered names produced through the real Produce (type name by reflection, zero value, pointer "
+            "distinctness, key format, uniqueness), ~300 other strings, random histories of Produce / Unpack over all "
+            "types (same type produced repeatedly) compared with the heap model, a later Produce re-checked for the zero "
+            "value, and 16 goroutines x 400 Produce/Unpack. distinct = distinct operation lines.")
+    technique = "Lean 4 proof (kernel decide over the regenerated registry/type/shape tables; induction over Produce/Unpack histories of a heap model) + differential correspondence"
+    level_text = ("Theorems over tables regenerated from the source each run: every entry is \"key\": new(T); keys unique; each key "
+                  "names the type bearing its number; declared = registered (174 = 174); every type's Pack/Unpack recognised as a "
+                  "modelled shape; the set of keys violating the three-digit form is exactly the recorded one (known finding). "
+                  "Histories: Unpack writes its receiver only, Produce appends a zero cell, untouched instances stay zero "
+                  "(induction over histories). Tie: regenerated tables + real Produce/Unpack histories vs the heap model.")
+    partial = "freedom from data races between goroutines is a Go-runtime fact exercised (16 goroutines) but not proved"
+
+
 class C15(Prop):
     id = "C15"
     lean_module = "Props.C15"
@@ -133,7 +153,7 @@ class C15(Prop):
     partial = "prefill-independence / no-overrun are shown by the differential run, not yet by a buffer-level Lean theorem"
 
 
-ALL = {c.id: c for c in [C01, C02, C11, C15, C18]}
+ALL = {c.id: c for c in [C01, C02, C11, C15, C18, C19]}
 NOT_CLAIMED = {}
 
 
